@@ -105,13 +105,63 @@ theorem below_thr_mono {m0 m : Mem} {blk : Block} (h : Below m0 blk) (hk : m.kin
     have := hcid hk0
     omega
 
+theorem below_mono {m0 m : Mem} {blk : Block} (h : Below m0 blk) (hk : m.kind = m0.kind)
+    (hp : m.pmax = m0.pmax)
+    (hmh : m0.kind = .mh → m0.precFileNum < m.precFileNum ∨
+      (m0.precFileNum = m.precFileNum ∧ m0.precPos ≤ m.precPos))
+    (hcid : m0.kind = .cid → m0.precPos ≤ m.precPos) : Below m blk := by
+  unfold Below at h ⊢
+  rw [hk, hp]
+  cases hk0 : m0.kind with
+  | mh =>
+    simp only [hk0] at h ⊢
+    obtain ⟨f, lp, h1, h2, h3⟩ := h
+    refine ⟨f, lp, h1, h2, ?_⟩
+    rcases hmh hk0 with hlt | ⟨heq, hle⟩
+    · left; omega
+    · rcases h3 with h3 | ⟨h3, h4⟩
+      · left; omega
+      · right; exact ⟨by omega, by omega⟩
+  | cid =>
+    simp only [hk0] at h ⊢
+    have := hcid hk0
+    omega
+
+/-- what the recovered state satisfies besides the observational invariant -/
+structure RecInv (c : Cfg) (m : Mem) (d : Disk) (n B : Nat) : Prop where
+  kind : m.kind = c.kind
+  imm : m.imm = c.imm
+  bits : m.bits = c.bits
+  p : PInv m d
+  i : IInv m d
+  x : XInv c ⟨c, m, d⟩
+  cnt : Cnt m n B
+  inext : m.inext = []
+
+theorem cutImg_sub {fs fs' fi : NMap Bytes} (hext : ∀ f, fs.get? f ≠ none → fs'.get? f ≠ none)
+    (hc : CutImg fs fs' fi) : ∀ f, fi.get? f ≠ none → fs'.get? f ≠ none := by
+  obtain ⟨nc, h1, h2, h3, h4⟩ := hc
+  intro f hf
+  rcases Nat.lt_trichotomy f nc with hlt | heq | hgt
+  · rw [← h1 f hlt]; exact hf
+  · subst heq
+    rcases h2 with h2 | ⟨g, t, e1, _⟩
+    · rw [h2] at hf; exact hext f hf
+    · rw [e1]; simp
+  · by_cases hf1 : f = nc + 1
+    · subst hf1
+      rcases h3 with h3 | ⟨_, _, e3, _⟩
+      · rw [h3] at hf; exact hext _ hf
+      · exact e3
+    · rw [h4 f (by omega)] at hf; exact hext f hf
+
 /-! ### two states that read a bucket alike answer Get alike -/
 
 /-- bucket `b` reads the same record list in both states and every entry resolves to the same record -/
 def BucketSame (kind : PKind) (m1 : Mem) (d1 : Disk) (m2 : Mem) (d2 : Disk) (b : Nat) : Prop :=
   ∃ orl, idxRecords m1 d1 b = .ok orl ∧ idxRecords m2 d2 b = .ok orl ∧
     ∀ e ∈ orl.getD [], ∃ k v dig, priGet m1 d1 e.blk = .got k v ∧ priGet m2 d2 e.blk = .got k v ∧
-      indexKeyOf kind k = some dig
+      indexKeyOf kind k = some dig ∧ (Below m2 e.blk → Below m1 e.blk)
 
 theorem rlGet_mem {rl : RecordList} {k : Key} {blk : Block} (h : rlGet rl k = some blk) :
     ∃ e ∈ rl, e.blk = blk := by
@@ -152,7 +202,7 @@ theorem storeGet_congr {m1 m2 : Mem} {d1 d2 : Disk} (hk : m1.kind = m2.kind) (hb
         | some blk =>
           simp only
           obtain ⟨e, he, rfl⟩ := rlGet_mem hg
-          obtain ⟨k, v, dig, p1, p2, p3⟩ := r3 e (by simpa using he)
+          obtain ⟨k, v, dig, p1, p2, p3, _⟩ := r3 e (by simpa using he)
           unfold getPrimaryKeyData
           simp only [p1, p2, hk, p3]
           by_cases hdi : dig = ik
@@ -253,11 +303,13 @@ theorem crash_core (hc : c.Legal) (hU : Univ c.kind U) (hI : Inv c U s spec n B)
     (order : List Nat) (fr : Option Bytes) (hF : OptExt s.d.free fr) (k : Nat) (early : Bool) :
     ∃ m1 d1 m2 d2, priFlush s.m s.d = some (m1, d1) ∧
       idxFlush m1 d1 (fixOrder order s.m.inext.keys) = (m2, d2) ∧
-      ∃ dr mr, openStoreR c (crashImage s.d (appendStream s.d { d2 with free := fr }) k early) =
-          (dr, .ok mr) ∧ mr.kind = c.kind ∧ mr.bits = c.bits ∧
-        ∀ b, BucketSame c.kind mr dr mOld dOld b ∨ BucketSame c.kind mr dr m2 d2 b := by
+      ∃ dr mr, ∃ newB : List Nat,
+        openStoreR c (crashImage s.d (appendStream s.d { d2 with free := fr }) k early) =
+          (dr, .ok mr) ∧ RecInv c mr dr n B ∧
+        ∀ b, (b ∉ newB → BucketSame c.kind mr dr mOld dOld b) ∧
+          (b ∈ newB → BucketSame c.kind mr dr m2 d2 b) := by
   obtain ⟨m1, d1, m2, d2, lg, p1, i1, hI2, hX2, hin, hpn, _, hR, hP, hd2, sP, sC, ⟨PI', sI⟩, smh, scid,
-    hl, himg, _⟩ := flush_parts hU hI hX hD hn hB order
+    hl, himg, hD2⟩ := flush_parts hU hI hX hD hn hB order
   refine ⟨m1, d1, m2, d2, p1, i1, ?_⟩
   have hd2p : d2.pfiles = d1.pfiles := by
     have := congrArg Disk.pfiles hd2; exact this
@@ -271,6 +323,10 @@ theorem crash_core (hc : c.Legal) (hU : Univ c.kind U) (hI : Inv c U s spec n B)
   rw [hd', hEq]
   have hbits : s.m.bits = c.bits := hX.bits
   have hkind : s.m.kind = c.kind := hI.kind
+  have hk2 : m2.kind = c.kind := hI2.kind
+  have hIp2 : PInv m2 d2 := hI2.p
+  have hIi2 : IInv m2 d2 := hI2.i
+  have hcnt2 : Cnt m2 n B := hI2.cnt
   -- the recovery of the old disk, explicitly
   obtain ⟨cfO, pfnO, plenO, filesO, frO, eqO, oO2, oO3, oO5, oO6⟩ :=
     recover_form c hc s.d s.m.pfileNum s.m.ifileNum lg (fun _ => []) hX.ihdr hD.snap hX.phdr hX.pall
@@ -287,7 +343,8 @@ theorem crash_core (hc : c.Legal) (hU : Univ c.kind U) (hI : Inv c U s spec n B)
     · rw [oO5 f h, hl.files f h]
   -- the index files of the image
   have hidx : ∃ (M : Nat) (lgI : Nat → List LRec) (junk : Nat → Bytes) (blks : List (Nat × Nat)),
-      (∀ f, f ≤ M → fiI.get? f = some (logBytes (lgI f) ++ junk f)) ∧ fiI.get? (M + 1) = none ∧
+      (∀ f, f ≤ M → fiI.get? f = some (logBytes (lgI f) ++ junk f)) ∧
+      (∀ f, M < f → fiI.get? f = none) ∧
       (∀ f, f ≤ M → ∀ r ∈ lgI f, RecLogOK c.bits r) ∧ (∀ f, IsTorn c.bits (junk f)) ∧
       scanTo c.ifs lgI M = setAll (scanTo c.ifs lg s.m.ifileNum) blks ∧
       (∀ files' : NMap Bytes, (∀ f, f ≤ M → files'.get? f = some (logBytes (lgI f))) →
@@ -298,7 +355,7 @@ theorem crash_core (hc : c.Legal) (hU : Univ c.kind U) (hI : Inv c U s spec n B)
     rcases hphase with hlit | hpc
     · refine ⟨s.m.ifileNum, lg, fun _ => [], [], ?_, ?_, ?_, fun _ => isTorn_nil _, rfl, ?_, Or.inl rfl⟩
       · intro f hf; rw [hlit, hl.files f hf, List.append_nil]
-      · rw [hlit]; exact hI.i.noFiles _ (by omega)
+      · intro f hf; rw [hlit]; exact hI.i.noFiles _ hf
       · intro f hf r hr; rw [← hbits]; exact hl.recs f hf r hr
       · intro files' hf'
         refine ⟨?_, by simp⟩
@@ -314,74 +371,161 @@ theorem crash_core (hc : c.Legal) (hU : Univ c.kind U) (hI : Inv c U s spec n B)
       exact ⟨M, lgI, junk, blks, g1, g2, g3, g4, g5, g6, Or.inr hpc⟩
   obtain ⟨M, lgI, junk, blks, g1, g2, g3, g4, g5, g6, hblk⟩ := hidx
   -- the primary files of the image
-  have hPm : ∃ Pm, c.kind = .mh → s.m.pfileNum ≤ Pm ∧
+  have hPm : ∃ Pm, c.kind = .mh → s.m.pfileNum ≤ Pm ∧ Pm ≤ m2.pfileNum ∧
       (∀ f, f ≤ Pm → ∃ j, fiP.get? f = some (fileOf s.d.pfiles f ++ j)) ∧
       (∀ f, Pm < f → fiP.get? f = none) := by
     rcases (by cases c.kind <;> simp : c.kind = .mh ∨ c.kind = .cid) with hk | hk
     · obtain ⟨P', segP, _⟩ := smh hk
-      obtain ⟨Mp, h1, h2, h3⟩ := cutImg_ext segP cP
-      exact ⟨Mp, fun _ => ⟨h1, h2, h3⟩⟩
+      obtain ⟨Mp, h1, h1', h2, h3⟩ := cutImg_ext segP cP
+      refine ⟨Mp, fun _ => ⟨h1, ?_, h2, h3⟩⟩
+      have hP'le : P' ≤ m2.pfileNum := by
+        rcases Nat.lt_or_ge m2.pfileNum P' with h | h
+        · have := (hIp2.mh (by rw [hk2]; exact hk)).2.2 P' h
+          rw [hd2p] at this
+          exact absurd this (segP.all' P' (Nat.le_refl _))
+        · exact h
+      omega
     · exact ⟨0, fun hk' => by rw [hk] at hk'; cases hk'⟩
   obtain ⟨Pm, hPm⟩ := hPm
   obtain ⟨cfR, pfnR, plenR, filesR, frR, eqR, r2, r3, r5, r6⟩ :=
     recover_form c hc { s.d with pfiles := fiP, cidfile := cf, ifiles := fiI, free := fr' } Pm M lgI junk
       hX.ihdr hD.snap hX.phdr
       (fun hk f hf => by
-        obtain ⟨j, hj⟩ := (hPm hk).2.1 f hf
+        obtain ⟨j, hj⟩ := (hPm hk).2.2.1 f hf
         show fiP.get? f ≠ none
         rw [hj]; simp)
-      (fun hk => (hPm hk).2.2 _ (by omega)) g1 g2 g3 (fun f _ => g4 f)
-  refine ⟨_, _, eqR, rfl, rfl, ?_⟩
-  intro b
-  obtain ⟨hfe, hbl⟩ := g6 filesR r5
-  rcases setAll_get? blks (scanTo c.ifs lg s.m.ifileNum) b with ⟨_, heq⟩ | ⟨pos, hmem, heq⟩
-  · -- the bucket was not reached by the flush: it reads what the old disk reads
-    left
-    obtain ⟨orl, a1, _, a3⟩ := hAold.recs b
-    have a1' : readDiskBucket s.d.ifiles c.ifs
-        (((scanTo c.ifs lg s.m.ifileNum).get? b).getD 0) = .ok orl := by
-      rw [← readDiskBucket_congr hcongr]; exact a1
-    refine ⟨orl, ?_, a1, ?_⟩
-    · rw [openMem_idxRecords]
-      show readDiskBucket filesR c.ifs (((scanTo c.ifs lgI M).get? b).getD 0) = _
-      rw [g5, heq]
-      exact readDiskBucket_mono hfe a1'
-    · intro e he
-      have hBk := a3 e he
-      obtain ⟨key, val, dig, b1, b2, _, _, _⟩ := hBk.ex
-      refine ⟨key, val, dig, ?_, b1, (hU.dig b2).1⟩
-      apply pri_old hBk.below b1
+      (fun hk => (hPm hk).2.2.2 _ (by omega)) g1 (g2 _ (by omega)) g3 (fun f _ => g4 f)
+  refine ⟨_, _, blks.map (·.1), eqR, ?_, ?_⟩
+  · -- the invariants of the recovered state
+    have hMle : M ≤ m2.ifileNum := by
+      have hsub := cutImg_sub (fs := s.d.ifiles) (fs' := d2.ifiles) (fi := fiI) (by
+        intro f hf
+        have hff : f ≤ s.m.ifileNum := by
+          rcases Nat.lt_or_ge s.m.ifileNum f with h | h
+          · exact absurd (hI.i.noFiles f h) hf
+          · exact h
+        exact sI.all' f (by have := sI.le; omega)) cI M (by rw [g1 M (Nat.le_refl _)]; simp)
+      rcases Nat.lt_or_ge m2.ifileNum M with h | h
+      · exact absurd (hIi2.noFiles M h) hsub
+      · exact h
+    have hcfle : (cf.getD []).length ≤ (d1.cidfile.getD []).length := by
+      rcases cC with hcc | ⟨g, t, e1, hcc⟩
+      · rw [hcc]
+        rcases sC with h | ⟨g, h⟩
+        · rw [h]; exact Nat.le_refl _
+        · rw [h]; simp
+      · rw [hcc, e1]
+        simp only [Option.getD_some, List.length_append, List.length_take]
+        omega
+    refine ⟨rfl, rfl, rfl, ?_, ?_, ?_, ?_, rfl⟩
+    · -- PInv
+      refine ⟨?_, fun r hr => (by cases hr), fun r hr => (by cases hr), fun r hr => (by cases hr), ?_, ?_⟩
       · intro hk
-        obtain ⟨h1, h2, h3⟩ := hPm hk
+        have hk' : c.kind = .mh := hk
+        show 1 ≤ hdrPfs c
+        unfold hdrPfs; simp only [hk']
+        exact hc.2.2.2.2.1
+      · intro hk
+        have hk' : c.kind = .mh := hk
+        obtain ⟨_, q2, q3⟩ := r2 hk'
+        refine ⟨⟨rfl, rfl⟩, ?_, ?_⟩
+        · show (fileOf fiP pfnR).length = plenR
+          rw [q3, q2]
+        · intro f hf
+          show fiP.get? f = none
+          have hf' : pfnR < f := hf
+          rw [q2] at hf'
+          exact (hPm hk').2.2.2 f hf'
+      · intro hk
+        have hk' : c.kind = .cid := hk
+        obtain ⟨q1, _, q3⟩ := r3 hk'
+        show (cfR.getD []).length = plenR
+        rw [q1, q3]; rfl
+    · -- IInv
+      refine ⟨hc.2.2.1, fun b rl hb => (by cases hb), rfl, ?_, scanTo_sorted _ _ _⟩
+      intro f hf
+      show filesR.get? f = none
+      rw [r6 f hf]
+      exact g2 f hf
+    · -- XInv
+      refine ⟨rfl, rfl, rfl, rfl, hX.ihdr, hX.phdr, ?_, fun b rl hb => (by cases hb), ⟨lgI, r5, g3,
+        fun _ => rfl⟩⟩
+      intro hk f hf
+      obtain ⟨_, q2, _⟩ := r2 hk
+      have hf' : f ≤ pfnR := hf
+      rw [q2] at hf'
+      obtain ⟨j, hj⟩ := (hPm hk).2.2.1 f hf'
+      show fiP.get? f ≠ none
+      rw [hj]; simp
+    · -- Cnt
+      refine ⟨?_, ?_, ?_⟩
+      · intro hk
+        have hk' : c.kind = .mh := hk
+        obtain ⟨_, q2, _⟩ := r2 hk'
+        have hkm : m2.kind = .mh := by rw [hk2]; exact hk'
+        have ha := (hIp2.mh hkm).1
+        rw [hpn] at ha
+        have hc2 := hcnt2.mh hkm
+        refine ⟨?_, ?_⟩
+        · show pfnR ≤ n
+          rw [q2]
+          have := (hPm hk').2.1
+          have := ha.1
+          omega
+        · show hdrPfs c ≤ 1073741824
+          have : m2.pmax = hdrPfs c := hX2.pmax
+          rw [← this]; exact hc2.2
+      · intro hk
+        have hk' : c.kind = .cid := hk
+        obtain ⟨_, _, q3⟩ := r3 hk'
+        have hkm : m2.kind = .cid := by rw [hk2]; exact hk'
+        have ha := hIp2.cid hkm
+        rw [hpn] at ha
+        have ha' : (d2.cidfile.getD []).length = m2.precPos := ha
+        have hc2 := hcnt2.cid hkm
+        show plenR ≤ B
+        rw [q3]
+        show (cf.getD []).length ≤ B
+        rw [hd2c] at ha'
+        omega
+      · show M + 0 ≤ n
+        have := hcnt2.idx
+        omega
+  · -- the buckets
+    intro b
+    obtain ⟨hfe, hbl⟩ := g6 filesR r5
+    constructor
+    · -- the bucket was not reached by the flush: it reads what the old disk reads
+      intro hnb
+      have heq : (setAll (scanTo c.ifs lg s.m.ifileNum) blks).get? b =
+          (scanTo c.ifs lg s.m.ifileNum).get? b := by
+        rcases setAll_get? blks (scanTo c.ifs lg s.m.ifileNum) b with ⟨_, heq⟩ | ⟨pos, hmem, _⟩
+        · exact heq
+        · exact absurd (List.mem_map.mpr ⟨(b, pos), hmem, rfl⟩) hnb
+      have hlexMh : c.kind = .mh → pfnO < pfnR ∨ (pfnO = pfnR ∧ plenO ≤ plenR) := by
+        intro hk
+        obtain ⟨h1, _, h2, h3⟩ := hPm hk
         obtain ⟨_, e2, e3⟩ := oO2 hk
         obtain ⟨_, q2, q3⟩ := r2 hk
-        refine ⟨?_, ?_⟩
-        · intro f file hf
-          have hf' : s.d.pfiles.get? f = some file := hf
-          have hfP : f ≤ s.m.pfileNum := by
-            rcases Nat.lt_or_ge s.m.pfileNum f with h | h
-            · rw [(hI.p.mh (by rw [hkind]; exact hk)).2.2 f h] at hf'; cases hf'
-            · exact h
-          obtain ⟨j, hj⟩ := h2 f (by omega)
-          exact ⟨j, by show fiP.get? f = _; rw [hj, fileOf_some hf']⟩
-        · rw [e2, q2, e3, q3]
-          rcases Nat.lt_or_ge s.m.pfileNum Pm with h | h
-          · left; exact h
-          · right
-            have hPe : s.m.pfileNum = Pm := by omega
-            refine ⟨hPe, ?_⟩
-            obtain ⟨j, hj⟩ := h2 Pm (Nat.le_refl _)
-            have : fileOf fiP Pm = fileOf s.d.pfiles Pm ++ j := fileOf_some hj
-            show (fileOf s.d.pfiles s.m.pfileNum).length ≤ (fileOf fiP Pm).length
-            rw [this, hPe, List.length_append]
-            omega
-      · intro hk
+        rw [e2, q2, e3, q3]
+        rcases Nat.lt_or_ge s.m.pfileNum Pm with h | h
+        · left; exact h
+        · right
+          have hPe : s.m.pfileNum = Pm := by omega
+          refine ⟨hPe, ?_⟩
+          obtain ⟨j, hj⟩ := h2 Pm (Nat.le_refl _)
+          have : fileOf fiP Pm = fileOf s.d.pfiles Pm ++ j := fileOf_some hj
+          show (fileOf s.d.pfiles s.m.pfileNum).length ≤ (fileOf fiP Pm).length
+          rw [this, hPe, List.length_append]
+          omega
+      have hcidO : c.kind = .cid → ∃ file g, cfO = some file ∧ cfR = some (file ++ g) ∧
+          plenO ≤ plenR := by
+        intro hk
         obtain ⟨e1, _, e3⟩ := oO3 hk
         obtain ⟨q1, _, q3⟩ := r3 hk
         rcases cC with hcc | ⟨g, t, _, hcc⟩
         · refine ⟨s.d.cidfile.getD [], [], e1, ?_, ?_⟩
-          · show cfR = _
-            rw [q1, List.append_nil]
+          · rw [q1, List.append_nil]
             show some (cf.getD []) = _
             rw [hcc]
           · rw [e3, q3]
@@ -389,71 +533,130 @@ theorem crash_core (hc : c.Legal) (hU : Univ c.kind U) (hI : Inv c U s spec n B)
             rw [hcc]
             exact Nat.le_refl _
         · refine ⟨s.d.cidfile.getD [], g.take t, e1, ?_, ?_⟩
-          · show cfR = _
-            rw [q1]
+          · rw [q1]
             show some (cf.getD []) = _
             rw [hcc]; rfl
           · rw [e3, q3]
             show (s.d.cidfile.getD []).length ≤ (cf.getD []).length
             rw [hcc]
             simp
-  · -- the bucket's new record is whole in the image: it reads what the flushed state reads
-    right
-    have hpc : (∀ n, fiP.get? n = d1.pfiles.get? n) ∧ cf = d1.cidfile := by
-      rcases hblk with h | h
-      · rw [h] at hmem; cases hmem
-      · exact h
-    obtain ⟨rl, n1, n2⟩ := hbl (b, pos) hmem
-    simp only at n1 n2
-    have hidx2 : idxRecords m2 d2 b = .ok (some rl) := by
-      rw [hR b]; unfold idxRecords; rw [n1]
-    refine ⟨some rl, ?_, hidx2, ?_⟩
-    · rw [openMem_idxRecords]
-      show readDiskBucket filesR c.ifs (((scanTo c.ifs lgI M).get? b).getD 0) = _
-      rw [g5, heq]
-      exact n2
-    · intro e he
-      obtain ⟨orl', c1, _, c3⟩ := hI2.a.recs b
-      have c1' : idxRecords m2 d2 b = .ok orl' := c1
-      rw [hidx2] at c1'
-      cases c1'
-      have hBk := c3 e he
-      obtain ⟨key, val, dig, b1, b2, _, _, _⟩ := hBk.ex
-      have b1' : priGet m2 d2 e.blk = .got key val := b1
-      refine ⟨key, val, dig, ?_, b1', (hU.dig b2).1⟩
-      apply pri_new hI2.p hpn hI2.kind hX2.pmax ?_ ?_ b1'
-      · intro hk
+      obtain ⟨orl, a1, _, a3⟩ := hAold.recs b
+      have a1' : readDiskBucket s.d.ifiles c.ifs
+          (((scanTo c.ifs lg s.m.ifileNum).get? b).getD 0) = .ok orl := by
+        rw [← readDiskBucket_congr hcongr]; exact a1
+      refine ⟨orl, ?_, a1, ?_⟩
+      · rw [openMem_idxRecords]
+        show readDiskBucket filesR c.ifs (((scanTo c.ifs lgI M).get? b).getD 0) = _
+        rw [g5, heq]
+        exact readDiskBucket_mono hfe a1'
+      · intro e he
+        have hBk := a3 e he
+        obtain ⟨key, val, dig, b1, b2, _, _, _⟩ := hBk.ex
+        refine ⟨key, val, dig, ?_, b1, (hU.dig b2).1, ?_⟩
+        · apply pri_old hBk.below b1
+          · intro hk
+            obtain ⟨h1, _, h2, h3⟩ := hPm hk
+            refine ⟨?_, hlexMh hk⟩
+            intro f file hf
+            have hf' : s.d.pfiles.get? f = some file := hf
+            have hfP : f ≤ s.m.pfileNum := by
+              rcases Nat.lt_or_ge s.m.pfileNum f with h | h
+              · rw [(hI.p.mh (by rw [hkind]; exact hk)).2.2 f h] at hf'; cases hf'
+              · exact h
+            obtain ⟨j, hj⟩ := h2 f (by omega)
+            exact ⟨j, by show fiP.get? f = _; rw [hj, fileOf_some hf']⟩
+          · intro hk
+            exact hcidO hk
+        · intro hbel
+          apply below_mono (m := openMem c (scanTo c.ifs lgI M) M (fileOf filesR M).length pfnR plenR)
+            hbel rfl rfl
+          · intro hk
+            exact hlexMh hk
+          · intro hk
+            obtain ⟨_, _, _, _, h⟩ := hcidO hk
+            exact h
+    · -- the bucket's new record is whole in the image: it reads what the flushed state reads
+      intro hb
+      obtain ⟨x, hx, hxb⟩ := List.mem_map.mp hb
+      rcases setAll_get? blks (scanTo c.ifs lg s.m.ifileNum) b with ⟨hnone, _⟩ | ⟨pos, hmem, heq⟩
+      · exact absurd (by rw [← hxb]; exact hx) (hnone x.2)
+      have hpc : (∀ n, fiP.get? n = d1.pfiles.get? n) ∧ cf = d1.cidfile := by
+        rcases hblk with h | h
+        · rw [h] at hmem; cases hmem
+        · exact h
+      have hnewMh : c.kind = .mh → (∀ f, fiP.get? f = d2.pfiles.get? f) ∧ pfnR = m2.pfileNum ∧
+          plenR = m2.plength := by
+        intro hk
         obtain ⟨_, q2, q3⟩ := r2 hk
-        have hk2 : m2.kind = .mh := by
-          have : m2.kind = c.kind := hI2.kind
-          rw [this]; exact hk
+        have hkm : m2.kind = .mh := by rw [hk2]; exact hk
         have hfiP : ∀ f, fiP.get? f = d2.pfiles.get? f := fun f => by rw [hpc.1, hd2p]
         have hPm2 : Pm = m2.pfileNum := by
           apply contig_unique (fs := fiP)
           · intro f hf
-            obtain ⟨j, hj⟩ := (hPm hk).2.1 f hf
+            obtain ⟨j, hj⟩ := (hPm hk).2.2.1 f hf
             rw [hj]; simp
-          · exact (hPm hk).2.2 _ (by omega)
+          · exact (hPm hk).2.2.2 _ (by omega)
           · intro f hf
             rw [hfiP]; exact hX2.pall hk f hf
-          · rw [hfiP]; exact (hI2.p.mh hk2).2.2 _ (Nat.lt_succ_self _)
+          · rw [hfiP]; exact (hIp2.mh hkm).2.2 _ (Nat.lt_succ_self _)
         refine ⟨hfiP, by rw [q2, hPm2], ?_⟩
         rw [q3, hPm2]
         have : fileOf fiP m2.pfileNum = fileOf d2.pfiles m2.pfileNum := by
           unfold fileOf; rw [hfiP]
         show (fileOf fiP m2.pfileNum).length = m2.plength
         rw [this]
-        exact (hI2.p.mh hk2).2.1
-      · intro hk
+        exact (hIp2.mh hkm).2.1
+      have hnewCid : c.kind = .cid → cfR = some (d2.cidfile.getD []) ∧
+          plenR = (d2.cidfile.getD []).length := by
+        intro hk
         obtain ⟨q1, _, q3⟩ := r3 hk
         refine ⟨?_, ?_⟩
-        · show cfR = _
-          rw [q1]
+        · rw [q1]
           show some (cf.getD []) = _
           rw [hpc.2, hd2c]
         · rw [q3]
           show (cf.getD []).length = _
           rw [hpc.2, hd2c]
+      obtain ⟨rl, n1, n2⟩ := hbl (b, pos) hmem
+      simp only at n1 n2
+      have hidx2 : idxRecords m2 d2 b = .ok (some rl) := by
+        rw [hR b]; unfold idxRecords; rw [n1]
+      refine ⟨some rl, ?_, hidx2, ?_⟩
+      · rw [openMem_idxRecords]
+        show readDiskBucket filesR c.ifs (((scanTo c.ifs lgI M).get? b).getD 0) = _
+        rw [g5, heq]
+        exact n2
+      · intro e he
+        obtain ⟨orl', c1, _, c3⟩ := hI2.a.recs b
+        have c1' : idxRecords m2 d2 b = .ok orl' := c1
+        rw [hidx2] at c1'
+        cases c1'
+        have hBk := c3 e he
+        obtain ⟨key, val, dig, b1, b2, _, _, _⟩ := hBk.ex
+        have b1' : priGet m2 d2 e.blk = .got key val := b1
+        refine ⟨key, val, dig, ?_, b1', (hU.dig b2).1, ?_⟩
+        · exact pri_new hIp2 hpn hk2 hX2.pmax hnewMh hnewCid b1'
+        · intro hbel
+          have hpm2 : m2.pmax = hdrPfs c := hX2.pmax
+          apply below_mono (m := openMem c (scanTo c.ifs lgI M) M (fileOf filesR M).length pfnR plenR)
+            hbel hk2.symm hpm2.symm
+          · intro hkm
+            have hk : c.kind = .mh := by rw [← hk2]; exact hkm
+            obtain ⟨_, e1, e2⟩ := hnewMh hk
+            have ha := (hIp2.mh hkm).1
+            rw [hpn] at ha
+            right
+            exact ⟨by show m2.precFileNum = pfnR; rw [e1]; exact ha.1.symm,
+              by show m2.precPos ≤ plenR; rw [e2, ha.2]; exact Nat.le_refl _⟩
+          · intro hkm
+            have hk : c.kind = .cid := by rw [← hk2]; exact hkm
+            obtain ⟨_, e2⟩ := hnewCid hk
+            have ha := hIp2.cid hkm
+            rw [hpn] at ha
+            have ha' : (d2.cidfile.getD []).length = m2.precPos := ha
+            show m2.precPos ≤ plenR
+            rw [e2, ha']
+            exact Nat.le_refl _
 
 end
 
